@@ -510,6 +510,7 @@ def scale_body(c):
     v = float(arr(model()).reshape(-1)[0])
     cc = copy.deepcopy(c)
     cc["g"] = {"s": [x * f for x in g["s"]], "c": [x * f for x in g["c"]]}
+    cc["offset"] = c.get("offset", 0.0) * f
     pp = cc["p"]
     pp["theta"] = [x * f for x in p["theta"]]
     if "growth" in pp:
@@ -521,8 +522,12 @@ def scale_body(c):
     m2, _ = evaluate(cc)
     w = float(arr(m2()).reshape(-1)[0])
     want = v - (n - 1) * math.log(f)
-    r1, err = reference(g, p)
-    r2, err2 = reference(cc["g"], pp)
+    def nominal(x):
+        off = x.get("offset", 0.0) if x.get("route") == "times" else 0.0
+        return {"s": [t + off for t in x["g"]["s"]], "c": [t + off for t in x["g"]["c"]]}
+
+    r1, err = reference(nominal(c), p)
+    r2, err2 = reference(nominal(cc), pp)
     # calendar dates: each model sees max(date) - date in double arithmetic, a rounding of the sampling times that is
     # not the same relative size before and after scaling; its effect on either value is measured with the oracle
     cal = abs(reference(effective_genealogy(c), p)[0] - r1) + abs(reference(effective_genealogy(cc), pp)[0] - r2)
